@@ -18,6 +18,7 @@ from exabgp.protocol.resource import Resource
 
 class ICMPType(Resource):
     NAME: ClassVar[str] = 'icmp type'
+    MAX: ClassVar[int] = 0xFF  # the ICMP type field is one octet
 
     ECHO_REPLY: ClassVar[int] = 0x00
     UNREACHABLE: ClassVar[int] = 0x03
@@ -64,6 +65,7 @@ class ICMPType(Resource):
 # https://www.iana.org/assignments/icmp-parameters
 class ICMPCode(Resource):
     NAME: ClassVar[str] = 'icmp code'
+    MAX: ClassVar[int] = 0xFF  # the ICMP code field is one octet
 
     # Destination Unreacheable (type 3)
     NETWORK_UNREACHABLE: ClassVar[int] = 0x0
